@@ -23,8 +23,8 @@ func (r Result) String() string { return [...]string{"unsat", "sat", "unknown"}[
 
 // Stats are global solver statistics (atomic).
 type Stats struct {
-	Queries, SatN, UnsatN, UnknownN, Errors int64
-	NanosInSolver                           int64
+	Queries, SatN, UnsatN, UnknownN, Errors, OneShots, OneShotDecided int64
+	NanosInSolver                                                     int64
 }
 
 var GStats Stats
@@ -41,6 +41,8 @@ type Solver struct {
 	nq        int
 	level     int
 	sent      int
+	curTmo    int
+	NextTmo   int // timeout for the next Check (0 = default)
 	LogW      io.Writer
 }
 
@@ -73,6 +75,7 @@ func (s *Solver) start() {
 	s.nq = 0
 	s.level = 0
 	s.sent = 0
+	s.curTmo = s.TimeoutMs
 	if strings.Contains(s.Bin, "cvc5") {
 		fmt.Fprintf(s.in, "(set-option :tlimit-per %d)\n(set-logic ALL)\n", s.TimeoutMs)
 	} else {
@@ -194,6 +197,15 @@ func (s *Solver) Check(pc []*Term, extra *Term, wantModel []*Term) (Result, map[
 		sb.WriteString(")\n")
 	}
 	s.sent = len(pc)
+	tmo := s.TimeoutMs
+	if s.NextTmo > 0 {
+		tmo = s.NextTmo
+		s.NextTmo = 0
+	}
+	if tmo != s.curTmo && !strings.Contains(s.Bin, "cvc5") {
+		fmt.Fprintf(&sb, "(set-option :timeout %d)\n", tmo)
+		s.curTmo = tmo
+	}
 	sb.WriteString("(push 1)\n")
 	if extra != nil {
 		sb.WriteString("(assert ")
@@ -354,4 +366,67 @@ func sexpValue(e interface{}) *big.Int {
 		}
 	}
 	return nil
+}
+
+// OneShot decides pc ∧ extra in a fresh solver process (non-incremental mode: z3 applies
+// its full preprocessing and the nlsat-based tactic, which the incremental core does not).
+func OneShot(bin string, pc []*Term, extra *Term, wantModel []*Term, timeoutSec int) (Result, map[string]*big.Int) {
+	t0 := time.Now()
+	defer func() { atomic.AddInt64(&GStats.NanosInSolver, int64(time.Since(t0))) }()
+	atomic.AddInt64(&GStats.OneShots, 1)
+	all := append([]*Term{}, pc...)
+	if extra != nil {
+		all = append(all, extra)
+	}
+	vs := map[*Term]bool{}
+	for _, t := range all {
+		t.Vars(vs)
+	}
+	for _, t := range wantModel {
+		t.Vars(vs)
+	}
+	var sb strings.Builder
+	if strings.Contains(bin, "cvc5") {
+		sb.WriteString("(set-logic ALL)\n")
+	}
+	sb.WriteString("(set-option :produce-models true)\n")
+	for v := range vs {
+		fmt.Fprintf(&sb, "(declare-const %s %s)\n", v.Name, v.Sort)
+	}
+	for _, t := range all {
+		fmt.Fprintf(&sb, "(assert %s)\n", t.SMT())
+	}
+	sb.WriteString("(check-sat)\n")
+	if len(wantModel) > 0 {
+		sb.WriteString("(get-value (")
+		for _, t := range wantModel {
+			sb.WriteString(t.SMT())
+			sb.WriteByte(' ')
+		}
+		sb.WriteString("))\n")
+	}
+	var args []string
+	if strings.Contains(bin, "cvc5") {
+		args = []string{"--lang=smt2", fmt.Sprintf("--tlimit=%d", timeoutSec*1000), "--produce-models"}
+	} else {
+		args = []string{"-in", "-smt2", fmt.Sprintf("-T:%d", timeoutSec)}
+	}
+	cmd := exec.Command(bin, args...)
+	cmd.Stdin = strings.NewReader(sb.String())
+	out, _ := cmd.Output()
+	text := strings.TrimSpace(string(out))
+	switch {
+	case strings.HasPrefix(text, "unsat"):
+		return Unsat, nil
+	case strings.HasPrefix(text, "sat"):
+		rest := strings.TrimSpace(text[3:])
+		if len(wantModel) == 0 {
+			return Sat, nil
+		}
+		if strings.HasPrefix(rest, "(error") || rest == "" {
+			return Unknown, nil
+		}
+		return Sat, parseModel(rest, wantModel)
+	}
+	return Unknown, nil
 }
